@@ -327,6 +327,15 @@ def _define_radial_gradient(
     return gradient_id
 
 
+def _is_similarity(affine: Affine2D) -> bool:
+    """True if affine maps circles to circles (uniform scale, rotation, reflection)."""
+    a, b, c, d = affine[:4]
+    tolerance = 1e-9 * max(abs(a), abs(b), abs(c), abs(d), 1.0)
+    return (abs(a - d) <= tolerance and abs(b + c) <= tolerance) or (
+        abs(a + d) <= tolerance and abs(b - c) <= tolerance
+    )
+
+
 def _map_gradient_coordinates(
     paint: _GradientPaint, affine: Affine2D
 ) -> _GradientPaint:
@@ -378,14 +387,22 @@ def _apply_paint(
     if isinstance(paint, PaintSolid):
         _apply_solid_paint(el, paint)
     elif isinstance(paint, (PaintLinearGradient, PaintRadialGradient)):
-        # Gradient paint coordinates are in UPEM space, we want them in SVG viewBox
-        # so that they match the SVGPath.d coordinates (that we copy unmodified).
-        paint = _map_gradient_coordinates(paint, upem_to_vbox)
-        # Likewise transforms refer to UPEM so they must be adjusted for SVG
-        if transform != Affine2D.identity():
-            transform = Affine2D.compose_ltr(
-                (upem_to_vbox.inverse(), transform, upem_to_vbox)
-            )
+        if isinstance(paint, PaintRadialGradient) and not _is_similarity(
+            upem_to_vbox
+        ):
+            # A user transform with skew or non-uniform scale doesn't map circles to
+            # circles, so leave the geometry in UPEM space and let the
+            # gradientTransform take it to the SVG viewBox.
+            transform = Affine2D.compose_ltr((transform, upem_to_vbox))
+        else:
+            # Gradient paint coordinates are in UPEM space, we want them in SVG viewBox
+            # so that they match the SVGPath.d coordinates (that we copy unmodified).
+            paint = _map_gradient_coordinates(paint, upem_to_vbox)
+            # Likewise transforms refer to UPEM so they must be adjusted for SVG
+            if transform != Affine2D.identity():
+                transform = Affine2D.compose_ltr(
+                    (upem_to_vbox.inverse(), transform, upem_to_vbox)
+                )
         _apply_gradient_paint(svg_defs, el, paint, reuse_cache, transform)
     elif is_transform(paint):
         transform @= paint.gettransform()
